@@ -2,6 +2,7 @@ package rules
 
 import (
 	"fmt"
+	"go/token"
 	"go/types"
 	"strings"
 
@@ -319,5 +320,483 @@ func c10OneCutoff(c *Ctx) {
 			}
 			c.R.Cond(ok, rule, core.FuncName(dh)+": version walk uses the cutoff", c.P.Pos(call.Pos()), "passed unchanged", "the version-graph walk gets a different cutoff")
 		}
+	}
+}
+
+// ---- C10.gc-order: node objects are deleted before the version objects that say which they are ------
+
+func init() {
+	register(&Rule{Name: "C10.gc-order", Min: 1, Run: c10GcOrder,
+		Doc: "DeleteHistoricVersions deletes every node object before any version object: the retired version objects are the only record of which nodes are garbage, so an interrupted vacuum can be completed by the next one"})
+	register(&Rule{Name: "C09.gc-all-successors", Min: 2, Run: c09AllSuccessors,
+		Doc: "a retired version becomes a deletion candidate only if none of the versions that superseded it is newer than the cutoff, and it is compared with all of them"})
+	byProp["C10"] = append(byProp["C10"], "C10.gc-order", "C09.gc-all-successors", "C17.merge-result")
+	byProp["C09"] = append(byProp["C09"], "C09.gc-all-successors", "C10.gc-order")
+	byProp["C11"] = append(byProp["C11"], "C09.gc-all-successors")
+	explain["C10"] += " gc-order: in DeleteHistoricVersions no DELETE of a version object (merged/) can run before a DELETE of a node object (no path from the former to the latter) — the garbage list is recomputed from the retired version objects on every vacuum, so deleting them first makes the nodes of an interrupted vacuum unreclaimable for ever. gc-all-successors (shared with C09/C11): a parent is a candidate only on paths on which no child was found newer than the cutoff (flag-sensitive), and the value recorded for it is the complete set of its children. merge-result (shared with C17): a merged version is always recorded as a parent, otherwise it is retired to merged/ but no version names it and vacuum never finds it."
+	explain["C11"] += " gc-all-successors (shared with C09): a version forked into a child older and a child newer than the cutoff stays; the newer child still links its nodes."
+}
+
+func c10GcOrder(c *Ctx) {
+	const rule = "C10.gc-order"
+	dh := mustFunc(c, "kv", "", "DeleteHistoricVersions")
+	mergedF := mustField(c, "kv", "DB", "merged")
+	persistF := mustField(c, "kv", "DB", "persist")
+	if dh == nil || mergedF == nil || persistF == nil {
+		return
+	}
+	name := core.FuncName(dh)
+	sc := c.Scope(dh)
+	var nodes, roots []ssa.CallInstruction
+	for _, f := range sc.Funcs {
+		for _, del := range deleteCalls(f) {
+			tgt := deleteTargetOf(del)
+			if tgt == nil {
+				continue
+			}
+			switch {
+			case pathHas(tgt.PrefixThrough, mergedF):
+				roots = append(roots, del)
+			case pathHas(tgt.PrefixThrough, persistF):
+				nodes = append(nodes, del)
+			}
+		}
+	}
+	if len(nodes) == 0 || len(roots) == 0 {
+		c.R.Unk(rule, name+": nodes before versions", c.P.Pos(dh.Pos()), fmt.Sprintf("expected DELETEs of node objects and of merged/ version objects, found %d / %d", len(nodes), len(roots)))
+		return
+	}
+	good := true
+	why := ""
+	for _, r := range roots {
+		for _, n := range nodes {
+			lr, ln := sc.Lift(r), sc.Lift(n)
+			if lr.Block() == ln.Block() && !an.InstrBefore(ln, lr) || lr.Block() != ln.Block() && an.ReachableFromBlock(lr.Block(), ln.Block(), nil) {
+				good = false
+				why = fmt.Sprintf("the DELETE of a version object at %s can run before the DELETE of a node object at %s: if the vacuum is interrupted in between, the record of which nodes are garbage is gone and no later vacuum reclaims them", c.P.Pos(r.Pos()), c.P.Pos(n.Pos()))
+			}
+			if !an.ReachableFromBlock(ln.Block(), lr.Block(), nil) && lr.Block() != ln.Block() {
+				good = false
+				why = "the version objects are not deleted on the path that deletes the node objects"
+			}
+		}
+	}
+	c.R.Cond(good, rule, name+": nodes before versions", c.P.Pos(roots[0].Pos()), "no version-object DELETE can precede a node-object DELETE", why)
+}
+
+func c09AllSuccessors(c *Ctx) {
+	const rule = "C09.gc-all-successors"
+	fn := gcFunc(c)
+	if fn == nil {
+		return
+	}
+	name := core.FuncName(fn)
+	// the dependents map: result of getDependents; the loop over it; the candidate store
+	var depCall *ssa.Call
+	for _, call := range an.Calls(fn) {
+		if cl, ok := call.(*ssa.Call); ok && calleeLabel(call) == "getDependents" {
+			depCall = cl
+		}
+	}
+	if depCall == nil {
+		c.R.Unk(rule, name+": candidate selection", c.P.Pos(fn.Pos()), "no call of getDependents found")
+		return
+	}
+	var cutoff *ssa.Parameter
+	for _, p := range fn.Params {
+		if nt := an.NamedOf(p.Type()); nt != nil && nt.Obj().Pkg() != nil && nt.Obj().Pkg().Path() == "time" && nt.Obj().Name() == "Time" {
+			cutoff = p
+		}
+	}
+	if cutoff == nil {
+		c.R.Unk(rule, name+": candidate selection", c.P.Pos(fn.Pos()), "no cutoff parameter of type time.Time")
+		return
+	}
+	n := 0
+	for _, b := range fn.Blocks {
+		for _, in := range b.Instrs {
+			mu, ok := in.(*ssa.MapUpdate)
+			if !ok {
+				continue
+			}
+			kr := rangeOfNext(mu.Key)
+			if kr == nil || an.Unwrap(kr.X) != ssa.Value(depCall) {
+				continue
+			}
+			n++
+			// (1) the value is the complete children set of that parent
+			vr := rangeOfNext(mu.Value)
+			whole := false
+			if vr == kr {
+				if ex, ok := an.Unwrap(mu.Value).(*ssa.Extract); ok && ex.Index == 2 {
+					whole = true
+				}
+			}
+			c.R.Cond(whole, rule, name+": candidate compared with all its successors", c.P.Pos(mu.Pos()),
+				"the candidate is recorded with the complete set of versions that superseded it",
+				"the candidate is recorded with a filtered set of its successors: nodes that a successor left out of the set still links are collected for deletion (a version forked into one child older and one newer than the cutoff loses nodes the newer child needs)")
+			// (2) no path from a "too new" outcome to the store within the same outer iteration
+			outerH := loopHeaderOf(b)
+			stop := map[*ssa.BasicBlock]bool{}
+			if outerH != nil {
+				// the outer loop is the one over the dependents map: its header holds the Next of kr
+				for h := outerH; h != nil; h = loopHeaderOf2(h) {
+					stop[h] = true
+					holds := false
+					for _, hi := range h.Instrs {
+						if nx, ok := hi.(*ssa.Next); ok && nx.Iter == ssa.Value(kr) {
+							holds = true
+						}
+					}
+					if holds {
+						stop = map[*ssa.BasicBlock]bool{h: true}
+						break
+					}
+				}
+			}
+			tests := 0
+			good := true
+			why := ""
+			for _, tb := range fn.Blocks {
+				iff, ok := tb.Instrs[len(tb.Instrs)-1].(*ssa.If)
+				if !ok {
+					continue
+				}
+				cond, neg := an.StripNot(iff.Cond)
+				tooNewSide := -1
+				switch x := cond.(type) {
+				case *ssa.Call:
+					f := x.Call.StaticCallee()
+					if f == nil || an.PkgPathOf(f) != "time" || len(x.Call.Args) != 2 {
+						break
+					}
+					usesCutoff := an.Unwrap(x.Call.Args[1]) == ssa.Value(cutoff) || an.Unwrap(x.Call.Args[0]) == ssa.Value(cutoff)
+					if !usesCutoff {
+						break
+					}
+					recvIsCutoff := an.Unwrap(x.Call.Args[0]) == ssa.Value(cutoff)
+					switch f.Name() {
+					case "After": // created.After(cutoff): too new when true
+						tooNewSide = 0
+						if recvIsCutoff {
+							tooNewSide = 1
+						}
+					case "Before": // created.Before(cutoff): too new when false
+						tooNewSide = 1
+						if recvIsCutoff {
+							tooNewSide = 0
+						}
+					}
+				case *ssa.BinOp:
+					// childRoot.Created == nil: unknown age counts as too new
+					if x.Op == token.EQL || x.Op == token.NEQ {
+						var tested ssa.Value
+						if an.IsNilConst(x.Y) {
+							tested = x.X
+						} else if an.IsNilConst(x.X) {
+							tested = x.Y
+						}
+						if tested != nil {
+							if f := an.FieldOfLoad(tested); f != nil && f.Name() == "Created" {
+								tooNewSide = 0
+								if x.Op == token.NEQ {
+									tooNewSide = 1
+								}
+							}
+						}
+					}
+				}
+				if tooNewSide < 0 {
+					continue
+				}
+				if neg {
+					tooNewSide = 1 - tooNewSide
+				}
+				// only tests inside the loop over this parent's children (dominated by the outer header)
+				if outerH == nil || !an.ReachableFromBlock(tb, b, nil) {
+					continue
+				}
+				tests++
+				if an.ReachableWithFacts(tb, tb.Succs[tooNewSide], b, stop, nil) {
+					good = false
+					why = fmt.Sprintf("from the outcome 'a successor is newer than the cutoff (or of unknown age)' at %s the candidate store is still reachable in the same iteration: a version is treated as history although a version that superseded it is not covered by the cutoff", c.P.Pos(iff.Cond.Pos()))
+				}
+			}
+			if tests == 0 {
+				good, why = false, "no comparison of a successor's creation time with the cutoff guards the candidate store"
+			}
+			c.R.Cond(good, rule, name+": candidate only if every successor is old enough", c.P.Pos(mu.Pos()), fmt.Sprintf("%d age tests; none of their 'too new' outcomes reaches the store", tests), why)
+		}
+	}
+	if n == 0 {
+		c.R.Unk(rule, name+": candidate selection", c.P.Pos(fn.Pos()), "no store into the candidate map keyed by the range over getDependents' result")
+	}
+}
+
+// loopHeaderOf2 returns the next enclosing loop header of a loop header h.
+func loopHeaderOf2(h *ssa.BasicBlock) *ssa.BasicBlock {
+	if h.Idom() == nil {
+		return nil
+	}
+	return loopHeaderOf(h.Idom())
+}
+
+// ---- C09.purge-table: which kv tombstones RemoveTombstones sweeps ----------------------------------
+
+func init() {
+	register(&Rule{Name: "C09.purge-table", Min: 4, Run: c09PurgeTable,
+		Doc: "decision table of RemoveTombstones' sweep over the sign of the tombstone time and its order with the cutoff: vacuum's own markers (zero time.Time, a negative nanosecond count) and tombstones before the cutoff are swept, live entries and newer tombstones are kept"})
+	byProp["C09"] = append(byProp["C09"], "C09.purge-table", "C03.open-errors")
+	byProp["C10"] = append(byProp["C10"], "C09.purge-table", "C03.open-errors")
+	byProp["C04"] = append(byProp["C04"], "C09.purge-table")
+	explain["C09"] += " purge-table: s3db.Vacuum purges a deleted row by a kv tombstone stamped time.Time{} (C04.vacuum-purge), whose UnixNano() is negative, and relies on RemoveTombstones sweeping it in the same vacuum; a marker that stays hides nothing (crdt.Get does not hide it) but blocks the key: re-inserting it dereferences a nil row. The sweep's callback is evaluated over the four order worlds of (tombstone time, 0, cutoff): negative -> deleted, zero (not a tombstone) -> kept, between 0 and the cutoff -> deleted, at or after the cutoff -> kept. open-errors (shared with C03): a version object that cannot be read while the version graph is loaded fails the vacuum — skipping it removes a reason not to delete its parent."
+}
+
+func c09PurgeTable(c *Ctx) {
+	const rule = "C09.purge-table"
+	fn := mustFunc(c, "kv", "*DB", "RemoveTombstones")
+	if fn == nil {
+		return
+	}
+	name := core.FuncName(fn)
+	sc := c.Scope(fn)
+	// the callback that deletes: the anonymous function (in scope or a closure of fn) calling Mast.Delete
+	var cb *ssa.Function
+	var del ssa.CallInstruction
+	cands := append([]*ssa.Function{}, sc.Funcs...)
+	cands = append(cands, fn.AnonFuncs...)
+	for _, f := range cands {
+		for _, call := range an.Calls(f) {
+			if an.CalleeIs(call, mastPkg, "Mast", "Delete") {
+				cb, del = f, call
+			}
+		}
+	}
+	if cb == nil {
+		c.R.Unk(rule, name+": sweep", c.P.Pos(fn.Pos()), "no call of Mast.Delete found in RemoveTombstones")
+		return
+	}
+	isTS := func(v ssa.Value) bool {
+		switch x := v.(type) {
+		case *ssa.Field:
+			f := an.FieldVar(x.X.Type(), x.Field)
+			return f != nil && f.Name() == "TombstoneSinceEpochNanos"
+		case *ssa.UnOp:
+			f := an.FieldOfLoad(x)
+			return f != nil && f.Name() == "TombstoneSinceEpochNanos"
+		}
+		return false
+	}
+	isZero := func(v ssa.Value) bool {
+		k, ok := v.(*ssa.Const)
+		return ok && k.Value != nil && k.Value.String() == "0"
+	}
+	type world struct {
+		name         string
+		sign         int  // of ts
+		beforeCutoff bool // ts < cutoff
+		wantDelete   bool
+	}
+	worlds := []world{
+		{"vacuum's marker (negative time)", -1, true, true},
+		{"not a tombstone (zero)", 0, true, false},
+		{"tombstone before the cutoff", 1, true, true},
+		{"tombstone at or after the cutoff", 1, false, false},
+	}
+	cmp := func(op token.Token, lt, eq bool) (bool, bool) {
+		// lt: left < right; eq: left == right
+		switch op {
+		case token.LSS:
+			return lt, true
+		case token.LEQ:
+			return lt || eq, true
+		case token.GTR:
+			return !lt && !eq, true
+		case token.GEQ:
+			return !lt, true
+		case token.EQL:
+			return eq, true
+		case token.NEQ:
+			return !eq, true
+		}
+		return false, false
+	}
+	for _, w := range worlds {
+		reached := false
+		unknownCond := ""
+		h := an.THooks{}
+		h.Instr = func(in ssa.Instruction, st an.TState) an.TState {
+			if in == del.(ssa.Instruction) {
+				reached = true
+			}
+			return st
+		}
+		h.Branch = func(iff *ssa.If, side bool, st an.TState) an.TState {
+			cond, neg := an.StripNot(iff.Cond)
+			bo, ok := cond.(*ssa.BinOp)
+			if !ok {
+				return st
+			}
+			var val, known bool
+			switch {
+			case isTS(bo.X) && isZero(bo.Y):
+				val, known = cmp(bo.Op, w.sign < 0, w.sign == 0)
+			case isZero(bo.X) && isTS(bo.Y):
+				val, known = cmp(bo.Op, w.sign > 0, w.sign == 0)
+			case isTS(bo.X):
+				val, known = cmp(bo.Op, w.beforeCutoff, false)
+			case isTS(bo.Y):
+				val, known = cmp(bo.Op, !w.beforeCutoff, false)
+			default:
+				return st
+			}
+			if !known {
+				unknownCond = c.P.Pos(bo.Pos())
+				return st
+			}
+			if (val != neg) != side {
+				return nil
+			}
+			return st
+		}
+		an.WalkTypestate(cb, noState{}, h, nil)
+		if unknownCond != "" {
+			c.R.Unk(rule, name+": "+w.name, c.P.Pos(del.Pos()), "a comparison of the tombstone time of an unexpected shape at "+unknownCond)
+			continue
+		}
+		why := "it is kept"
+		if !w.wantDelete {
+			why = "it is deleted"
+		}
+		okMsg := "kept"
+		if w.wantDelete {
+			okMsg = "swept"
+		}
+		c.R.Cond(reached == w.wantDelete, rule, name+": "+w.name, c.P.Pos(del.Pos()), okMsg,
+			fmt.Sprintf("%s: %s — vacuum's purge markers must be swept by the same vacuum (a marker that stays blocks its key: re-inserting it panics), tombstones before the cutoff are reclaimed, everything else stays", w.name, why))
+	}
+}
+
+// ---- C09.vacuum-outside-tx: the live handle is not swapped under a transaction snapshot -------------
+
+func init() {
+	register(&Rule{Name: "C09.vacuum-outside-tx", Min: 1, Run: c09VacuumOutsideTx,
+		Doc: "Vacuum replaces the table's tree only when no transaction snapshot (txStart) is held: a ROLLBACK would otherwise restore the pre-vacuum tree, whose objects the vacuum has just deleted"})
+	byProp["C09"] = append(byProp["C09"], "C09.vacuum-outside-tx")
+	byProp["C05"] = append(byProp["C05"], "C09.vacuum-outside-tx")
+	explain["C09"] += " vacuum-outside-tx: deleting storage cannot be rolled back, so the snapshot a ROLLBACK restores must not be older than the vacuum: every store to the table's tree in Vacuum is reached only under 'txStart == nil' (or after txStart was replaced)."
+}
+
+func c09VacuumOutsideTx(c *Ctx) {
+	const rule = "C09.vacuum-outside-tx"
+	fn := mustFunc(c, "", "", "Vacuum")
+	txStart := mustField(c, "", "VirtualTable", "txStart")
+	rootF := mustField(c, "", "KV", "Root")
+	if fn == nil || txStart == nil || rootF == nil {
+		return
+	}
+	name := core.FuncName(fn)
+	sc := c.Scope(fn)
+	n := 0
+	for _, f := range sc.Funcs {
+		for _, st := range an.StoresToField(f, rootF) {
+			n++
+			good := false
+			// guarded by a nil test of txStart in the anchor (lifted position)
+			pos := sc.Lift(st)
+			if an.GuardedByNilTest(an.Edge{From: pos.Block()}, func(v ssa.Value) bool { return an.FieldOfLoad(v) == txStart }, true) {
+				good = true
+			}
+			// or the snapshot is replaced before the swap
+			for _, f2 := range sc.Funcs {
+				for _, s2 := range an.StoresToField(f2, txStart) {
+					if sc.Before(s2, st) {
+						good = true
+					}
+				}
+			}
+			key := name + ": tree swapped only outside a transaction"
+			if n > 1 {
+				key += fmt.Sprintf("#%d", n)
+			}
+			c.R.Cond(good, rule, key, c.P.Pos(st.Pos()), "the swap is reached only when no transaction snapshot is held",
+				"the vacuumed tree is installed while a transaction snapshot may be held: 'begin; update t … where <no row>; select * from s3db_vacuum(t, <future cutoff>); rollback' restores the pre-vacuum tree whose objects were just deleted — the table then reads as empty")
+		}
+	}
+	if n == 0 {
+		c.R.Unk(rule, name+": tree swapped only outside a transaction", c.P.Pos(fn.Pos()), "no store to the table's tree found in Vacuum")
+	}
+}
+
+// ---- C09.gc-evicts-cache: what vacuum deletes, the node cache forgets ------------------------------
+
+func init() {
+	register(&Rule{Name: "C09.gc-evicts-cache", Min: 1, Run: c09EvictsCache,
+		Doc: "every node object DeleteHistoricVersions deletes is also removed from the node cache, which mast consults as its record of what is already stored"})
+	byProp["C09"] = append(byProp["C09"], "C09.gc-evicts-cache")
+	byProp["C16"] = append(byProp["C16"], "C09.gc-evicts-cache")
+	explain["C09"] += " gc-evicts-cache: mast skips the PUT of a node whose name its NodeCache contains (store.go: cache.Contains); the cache outlives a vacuum, so a node the vacuum deleted and a later commit re-creates with identical content would never be stored again (node_cache_entries>0: insert 1; insert 2; vacuum; delete 2; vacuum -> other readers see an empty table). In the loop that DELETEs node objects, the same name — under the store's NodeURLPrefix — is removed from cfg.NodeCache."
+	explain["C16"] += " gc-evicts-cache (shared with C09): 'every object a version refers to exists' also after a vacuum with a node cache."
+}
+
+func c09EvictsCache(c *Ctx) {
+	const rule = "C09.gc-evicts-cache"
+	dh := mustFunc(c, "kv", "", "DeleteHistoricVersions")
+	persistF := mustField(c, "kv", "DB", "persist")
+	cacheF := mustField(c, "kv", "Config", "NodeCache")
+	if dh == nil || persistF == nil || cacheF == nil {
+		return
+	}
+	name := core.FuncName(dh)
+	sc := c.Scope(dh)
+	n := 0
+	for _, f := range sc.Funcs {
+		for _, del := range deleteCalls(f) {
+			tgt := deleteTargetOf(del)
+			if tgt == nil || !pathHas(tgt.PrefixThrough, persistF) {
+				continue
+			}
+			n++
+			H := loopHeaderOf(del.Block())
+			good := false
+			why := "the loop that deletes node objects does not remove them from cfg.NodeCache: mast's 'already stored' test keeps answering yes for a deleted object, and a later commit that re-creates the same content skips its PUT — the committed version refers to an object that does not exist (node_cache_entries>0: insert 1; insert 2; vacuum; delete 2; vacuum: a fresh reader sees an empty table)"
+			for _, call := range an.Calls(f) {
+				if calleeLabel(call) != "Remove" || H == nil || loopHeaderOf(call.Block()) != H {
+					continue
+				}
+				rv := call.Common().Value
+				if !call.Common().IsInvoke() {
+					rv = an.RecvValue(call)
+				}
+				if rv == nil || !an.DependsOn(rv, func(v ssa.Value) bool { return an.FieldOfLoad(v) == cacheF }) {
+					continue
+				}
+				args := call.Common().Args
+				if len(args) == 0 {
+					continue
+				}
+				keyArg := args[len(args)-1]
+				// the key names this iteration's node under the store's NodeURLPrefix
+				usesPrefix, usesName := false, false
+				an.DependsOn(keyArg, func(v ssa.Value) bool {
+					if cl, ok := v.(*ssa.Call); ok && calleeLabel(cl) == "NodeURLPrefix" {
+						usesPrefix = true
+					}
+					if tgt.KeySuffix != nil && (v == tgt.KeySuffix || an.Unwrap(v) == an.Unwrap(tgt.KeySuffix)) {
+						usesName = true
+					}
+					return false
+				})
+				if usesPrefix && usesName {
+					good = true
+				} else {
+					why = fmt.Sprintf("the cache key removed at %s is not '<NodeURLPrefix()>/<name of the deleted node>' (prefix %v, name %v)", c.P.Pos(call.Pos()), usesPrefix, usesName)
+				}
+			}
+			c.R.Cond(good, rule, name+": deleted nodes leave the cache", c.P.Pos(del.Pos()), "the node's cache key is removed in the same loop", why)
+		}
+	}
+	if n == 0 {
+		c.R.Unk(rule, name+": deleted nodes leave the cache", c.P.Pos(dh.Pos()), "no DELETE of node objects found")
 	}
 }
